@@ -802,6 +802,16 @@ func ruleValidatorsAgree(c *Ctx) {
 				if !okV {
 					bad = append(bad, fmt.Sprintf("%s: %s parses config field %s with %s, but no validator of that field uses the same parser (tags %v): an accepted configuration can still fail to apply", c.P.pos(in.Pos()), funcName(f), fv.Name(), p, fieldTags[fv]))
 				}
+				// a validator that also accepts through another parser is wider than the consumer
+				if okV && (p == "time.ParseDuration" || p == "github.com/dustin/go-humanize.ParseBytes") {
+					for _, tag := range fieldTags[fv] {
+						for q := range regs[tag] {
+							if parsers[q] && !containsStr(same, q) && !strings.HasPrefix(q, "strings.") {
+								bad = append(bad, fmt.Sprintf("%s: %s parses config field %s with %s only, but the validator of tag %q also runs %s: a value only the second parser accepts is saved and then silently dropped when applied", c.P.pos(in.Pos()), funcName(f), fv.Name(), p, tag, q))
+							}
+						}
+					}
+				}
 			}
 		}
 	}
